@@ -301,9 +301,6 @@ impl MultiState {
                 .as_ref()
                 .map(|d| d.visual_line_count(.., width))
                 .unwrap_or_default();
-            // Track the total number of zombie lines on the screen.
-            self.zombie_lines_count += line_count;
-
             // Track the number of zombie lines that will be drawn by this call to draw.
             adjust += line_count;
 
@@ -351,8 +348,11 @@ impl MultiState {
         }
 
         // The zombie lines were drawn for the last time, so make `DrawTarget` forget about them
-        // so they aren't cleared on next draw.
+        // so they aren't cleared on next draw. Only now do they count as zombie lines on the
+        // screen: the draw was not refused by the rate limiter, and they are no longer part of
+        // the lines the `DrawTarget` clears by itself.
         if extra_lines.is_none() {
+            self.zombie_lines_count += adjust;
             self.draw_target
                 .adjust_last_line_count(LineAdjust::Keep(adjust));
         }
